@@ -118,6 +118,8 @@ type sigCase[X sigma.Statement, W sigma.Witness, A sigma.Statement, S sigma.Stat
 	// fischlinQuick: run the two Fischlin compilers also in the quick tier (their provers search
 	// ~2^b responses per repetition, which is slow when a response costs a group operation)
 	fischlinQuick bool
+	// sigmaOnly: in the quick tier only the sigma level (transcripts, simulator) is run
+	sigmaOnly bool
 }
 
 func eHex(e []byte) string { return hexNat(new(big.Int).SetBytes(e)) }
@@ -154,6 +156,9 @@ func runSigma[X sigma.Statement, W sigma.Witness, A sigma.Statement, S sigma.Sta
 	}
 	t0 := time.Now()
 	sigmaLevel(c, r, cs)
+	if cs.sigmaOnly && !c.Thorough() {
+		return
+	}
 	t1 := time.Now()
 	fsLevel(c, r, cs)
 	t2 := time.Now()
